@@ -192,9 +192,21 @@ def _get_or_create_semaphore(
                     return GLOBAL_RETRY_SEMAPHORES[fallback_key]
     else:
         with GLOBAL_RETRY_SEMAPHORE_LOCK:
-            if sem_key not in GLOBAL_RETRY_SEMAPHORES:
-                GLOBAL_RETRY_SEMAPHORES[sem_key] = asyncio.Semaphore(semaphore_limit)
-            return GLOBAL_RETRY_SEMAPHORES[sem_key]
+            semaphore = GLOBAL_RETRY_SEMAPHORES.get(sem_key)
+            if semaphore is not None:
+                # an asyncio.Semaphore binds itself to the event loop it was first contended in: one left over from a
+                # previous (closed) loop raises RuntimeError as soon as someone has to wait on it again, so replace it
+                bound_loop = getattr(semaphore, '_loop', None)
+                try:
+                    running_loop = asyncio.get_running_loop()
+                except RuntimeError:
+                    running_loop = None
+                if bound_loop is not None and bound_loop is not running_loop:
+                    semaphore = None
+            if semaphore is None:
+                semaphore = asyncio.Semaphore(semaphore_limit)
+                GLOBAL_RETRY_SEMAPHORES[sem_key] = semaphore
+            return semaphore
 
 
 def _calculate_semaphore_timeout(
